@@ -82,12 +82,15 @@ def build(SqliteMap, name, d, nodes, edges, mode, use_latlon=False):
     return m
 
 
-def selftest(n=25, seed=0):
+def selftest(n=25, seed=None):
     """Run n random concrete scripts through SqliteMap on the real sqlite3 and on the shim; any disagreement is a harness
     error.  Returns the number of scripts compared."""
     import contextlib
     import io
     from leuvenmapmatching.map.sqlite import SqliteMap
+    if seed is None:
+        from symx.common import seed as _seed
+        seed = _seed()
     rnd = random.Random(seed)
     d = scratch_dir()
     try:
